@@ -260,14 +260,8 @@ func (c *Ctx) errPropagated(call ssa.CallInstruction) (bool, string) {
 	if e == nil {
 		return false, "error result is dropped"
 	}
-	// returned directly?
-	if refs := e.Referrers(); refs != nil {
-		for _, r := range *refs {
-			if _, ok := r.(*ssa.Return); ok {
-				return true, "returned directly"
-			}
-		}
-	}
+	// (that e is an operand of some return proves nothing: `if err == nil { return err }`;
+	// the path checks below decide)
 	// returned without a test (possibly merged with other results in a phi): every
 	// return reachable from the call hands e back
 	fn := call.Parent()
